@@ -348,6 +348,16 @@ impl<'a> Client<'a> {
                     self.notify("$/cancelRequest", json!({"id": id}));
                 }
             }
+            Op::Change2 { path, first, text } => {
+                self.open.insert(path.clone(), text.clone());
+                self.sim.with(|st| st.editor_open.insert(PathBuf::from(path), text.clone()));
+                self.last_touched = Some(path.clone());
+                let version = self.bump_version(path, false);
+                self.notify(
+                    "textDocument/didChange",
+                    json!({"textDocument":{"uri":self.uri(path),"version":version},"contentChanges":[{"text":first},{"text":text}]}),
+                );
+            }
             Op::EmptyChange { path } => {
                 let version = self.bump_version(path, false);
                 self.notify(
